@@ -69,7 +69,7 @@ def _content(us, tag, cached):
     head = '<%%! VTAG = "%s" %%>' % t
     kind = us["kind"]
     fdef = '<%%def name="f()">F%s(${x})</%%def>' % t
-    cdef = ('<%%def name="c()" cached="True">C%s</%%def>${c()}' % t) if cached else ""
+    cdef = ('<%%def name="c()" cached="True" cache_timeout="600">C%s</%%def>${c()}' % t) if cached else ""
     if kind == "plain":
         return head + fdef + "T%s[${x}]" % t + cdef
     if kind == "inc":
@@ -450,7 +450,7 @@ class Harness:
             # cache, memoised properties; plus lock operations and construction boundaries
             if label.startswith("L:") or label.startswith("O:"):
                 _, fn, func, _ = label.split(":", 3)
-                return fn == "lookup.py" or (fn == "util.py" and func in hot_names)
+                return fn == "lookup.py" or (fn == "util.py" and func in hot_names) or (fn == "cache.py" and func == "_get_cache_kw")
             return label.startswith("lock.") or label.startswith("Template.")
 
         self.sched.is_hot = is_hot
@@ -805,6 +805,16 @@ class Harness:
             if len(self.lookup._uri_cache) and any(r["kind"] == "served" for r in allrecs):
                 if len(dict.keys(self.lookup._uri_cache)) >= self.cfg["collection_size"]:
                     self.probe("uri-cache-eviction")
+        # every call of the cached def reaches the backend with the def's own arguments, the first one included
+        import vsim.simcache as _sc
+
+        for cid_, key, kw in _sc.ARGS:
+            if key == "render_c":
+                self.probe("cache-args-checked")
+                if kw.get("timeout") != 600 or type(kw.get("timeout")) is not int:
+                    self.flag("cache-args", "a concurrent render reached the backend for cached def c of %s with arguments %r; the def's own "
+                              "are {'timeout': 600}" % (cid_, kw))
+                    break
         per_t = {}
         for (tid, cid) in self.cache_objs:
             per_t.setdefault(tid, set()).add(cid)
